@@ -67,7 +67,7 @@ func H_C04d_quartet_hash() {
 func H_C04a_index() {
 	n := sxParam("n", 4)
 	t := genTree(n, 2, false)
-	decorate(t, lenAll, true)
+	decorate(t, lenAll, supAny)
 	sxAssert(t.ReinitIndexes() == nil, "ReinitIndexes succeeds")
 	sxAssert(indexAgrees(t) == "", "index describes the tree after ReinitIndexes")
 	sxAssert(rankAgrees(t) == "", "tip indexes are the ranks of the sorted names")
